@@ -74,6 +74,31 @@ CHECKS = {
         "non-trivial = a poll was compared",
         {"polls_checked": 2500, "event_polls": 1000, "probes": 1000, "epipe_expected": 50, "bits_checked": 1500},
         assumptions=KERNEL_TRUST),
+    "C02": scen_check(
+        "eng_io", "exploration",
+        "six workload templates (bulk output over both streams with sizes 0..5 MB straddling 64 KiB; fine-grained "
+        "interleavings of child writes/closes/exit with parent reads of sizes 0,1,7,4096,65536; stdin transfers in every "
+        "chunk size followed by close; start-up input; mixed; nonblocking empty/data/EOF) in blocking and nonblocking mode "
+        "with err in {pipe, stdout, parent, discard}; payloads are position-coded and verified byte by byte, EOF placement "
+        "is checked against acknowledged child writes/closes; non-trivial = at least one read or write was checked",
+        {"reads": 3000, "bytes_verified": 15000000, "epipes": 1000, "eagains": 100, "size0_reads": 100,
+         "stdin_bytes_verified": 10000000, "eof_checks": 500}, assumptions=KERNEL_TRUST),
+    "C16": scen_check(
+        "eng_io", "exploration",
+        "reproc_drain / reproc_run_ex over children writing 0..1 MB in 1-5 chunks to both streams, closing streams before "
+        "exiting, with err in {pipe, stdout, parent, discard}; recording sinks (every call logged and content-verified), "
+        "sinks failing at call k with positive/negative results, string sinks with/without prefix, realloc failing at "
+        "growth step k, deadlines before/during/after the output, second drain on closed streams; non-trivial = a drain/run was compared",
+        {"drains": 1500, "sink_calls": 10000, "closing_calls": 1500, "sink_failures": 100, "string_sinks": 150,
+         "realloc_faults_fired": 50, "timeouts": 50, "runs": 300}, assumptions=KERNEL_TRUST),
+    "C17": scen_check(
+        "eng_io", "exploration",
+        "reads/writes on every pipe state (empty, partly filled, full, far side closed) with an idle, slow or never-reading "
+        "child, nonblocking (2/3) and blocking (1/3), start-up input sizes {0,1,4096,65535,65536,65537,70000,1M}; waiting is "
+        "observed at the libc boundary (virtual-time advance inside read/write, O_NONBLOCK flag of the descriptor); "
+        "non-trivial = an I/O call or an input start was checked",
+        {"nb_calls": 1500, "blocking_calls": 500, "blocking_waits": 50, "input_starts": 100,
+         "input_failed_starts": 20, "nonblock_flag_seen": 1000}, assumptions=KERNEL_TRUST),
 }
 
 
@@ -108,10 +133,31 @@ MANIFEST_TEXT = {
             "kernel end events) and every reported event is probed by the matching read/write/wait(0), which must not block.",
             "stdin writability is asserted only when the pipe holds <= 4096 bytes or was filled to EAGAIN (page arithmetic in between is kernel business)",
             "DESIGN.md 3/C09"),
+    "C02": ("io", "runtime monitor: position-coded payloads verified byte-for-byte; EOF/EPIPE placement vs acknowledged child writes",
+            "Every byte crossing a pipe is position-coded, so loss, duplication or reordering is visible at a known offset; the "
+            "closed-stream error is accepted only when ground truth (child acks, closes, kernel end events) says all data was "
+            "delivered and no writer is left; stdin content is verified inside the child, EOF is demanded after close/input.",
+            "a size-0 read is only required not to report a closed stream; deadlocks the scenario itself creates are matched as expected hangs",
+            "DESIGN.md 3/C02"),
+    "C16": ("io", "runtime monitor: recorded sink-call sequence vs documented drain protocol; realloc fault at each growth step",
+            "Sinks record every call (sink, tag, size, content check, virtual time); the sequence is compared with the documented "
+            "protocol (two initial calls, right sink and tag, one closing call per closing piped stream, stop at first non-zero "
+            "result, ETIMEDOUT at the deadline, 0 only with both streams closed); string sinks are checked for exact content, "
+            "also with a prefix and when realloc fails at step k; reproc_run_ex must return the kernel's status.",
+            "C side only (the C++ templates are exercised by C19's engine); positive sink results are not errors for run",
+            "DESIGN.md 3/C16"),
+    "C17": ("io", "runtime monitor: virtual-time advance inside read/write at the libc boundary; O_NONBLOCK state of the descriptor",
+            "Whether a call waited is observed directly: the interposed read/write/poll record when virtual time had to advance "
+            "and whether the descriptor carried O_NONBLOCK. Nonblocking calls must never wait nor hang, start with input must "
+            "not wait and must deliver exactly the input + EOF or fail; blocking reads may wait only until the first child event "
+            "on that stream, blocking writes only until the child made room.",
+            "how much room a partial child read makes for a blocked write is kernel page arithmetic: only 'returned at a child event' is asserted",
+            "DESIGN.md 3/C17"),
 }
 
-ENGINE_PATHS = {"life": "eng_life.py", "poll": "eng_poll.py"}
+ENGINE_PATHS = {"life": "eng_life.py", "poll": "eng_poll.py", "io": "eng_io.py"}
 ENGINE_KINDS = {
+    "io": "scenario runner on a virtual clock; position-coded streams; recording sinks; ground-truth stream model",
     "poll": "scenario runner on a virtual clock; ground-truth stream state model (lib/model_io.py)",
     "life": "scenario runner (src/scen.c) on a virtual clock with scripted helper child; python reference models",
 }
